@@ -58,14 +58,29 @@ Fixpoint sets_sortedb (crank : val -> val -> option comparison) (v : val) {struc
 
 (* 0 = fine; 3 = the value is outside rt_ok; 4 = floats_roundtrip fails; 5 = a Set is not listed in the
    constructor's order; 6 = class 2 but canon v (oracle fields restored) is not v; 7 = the scanner /
-   parser models do not give PValue (canon v) on the observed text *)
+   parser models do not give PValue (canon v) on the observed text; 8 / 9 = an elided text is not
+   rejected with a located diagnostic (model) / did not make the real ParseSource panic *)
 Definition rt_model_code (c : fcase) (k : fcall) : nat :=
   match k with
   | FCall v obs rt rteq rttxt =>
     match obs with
     | OText t =>
       match rt_class (fc_max c) v with
-      | O => O
+      | O =>
+        (* an ELIDED text (nested deeper than the limit): the scanner / parser models stop with a
+           located diagnostic — for the first dot, or for an earlier token when the value holds
+           something else the grammar has no sentence for (8 otherwise) —, and the real ParseSource
+           did not return a value (9; the harness does not call it on a bare association) *)
+        match tokens_of (ft_of (fc_ftext c)) (pr_of (fc_print c)) (fc_max c) v with
+        | Some ts =>
+          if has_elision ts then
+            match Parser.parse_source (fparse_of (fc_ftext c)) (crank_of v) t with
+            | Parser.PSyntax e => if rt =? 0 then 9%nat else O
+            | _ => 8%nat
+            end
+          else O
+        | None => O
+        end
       | S cls' =>
         let crank := crank_of v in
         let ftext := ft_of (fc_ftext c) in
